@@ -16,7 +16,9 @@ StartWith(caps) == [docs |-> [d \in 1..Len(caps) |-> [cap |-> caps[d], recs |-> 
 Start == StartWith(<<"write", "write">>)
 
 ValOk(q, R) ==
-  CASE q.op \in {"Close", "GetState", "GetMany", "GetExact", "DeletePrefix"} -> q.val = R.val
+  CASE q.op \in {"Close", "GetMany", "GetExact", "DeletePrefix"} -> q.val = R.val
+    \* handles and the sync switch are C14's subject; the subscriber count is compared under C12 only
+    [] q.op = "GetState" -> q.val[1] = R.val[1] /\ q.val[2] = R.val[2] /\ (Prop = "C12" => q.val[3] = R.val[3])
     [] OTHER -> TRUE
 
 \* successor states allowed for a request: the specified one; a refused Drop may or may not have
